@@ -227,6 +227,14 @@ class Sched:
     def sleep(self, d):
         self.block("sleep", None, None, timeout=d, poll=d <= POLL_MAX)
 
+    def env_choice(self, kind, options):
+        """An answer of the environment that the schedule decides: options[0]
+        is the default, any other one is a deviation like a thread switch."""
+        if len(options) <= 1 or not self.in_sim():
+            return options[0]
+        info = tuple(("env", kind, o) for o in options)
+        return options[self.chooser.choose(self, list(options), info)]
+
     # -- time
     def time(self):
         return self.now + self.wall_offset
@@ -828,7 +836,12 @@ class SimSocket:
             if self.net.send_to_closed_raises:
                 raise BrokenPipeError(errno.EPIPE, "Broken pipe")
             # first write after the peer closed succeeds: the bytes do cross
-            # the wire, the peer's stack just discards them
+            # the wire, the peer's stack just discards them and answers RST;
+            # whether that RST is in before a later write is the
+            # environment's choice (default: still in flight)
+            ep.writes_after_peer_close = getattr(ep, "writes_after_peer_close", 0) + 1
+            if ep.writes_after_peer_close > 1 and s.env_choice("send-after-peer-close", ("ok", "EPIPE")) == "EPIPE":
+                raise BrokenPipeError(errno.EPIPE, "Broken pipe")
             ep.conn.tap[ep.side].append(data)
             return len(data)
         ep.conn.tap[ep.side].append(data)
